@@ -6,7 +6,7 @@ import (
 
 // C09_header_fields: one header field symbolic at a time (their product would only multiply paths):
 // mode 0: every packet type x namespace "" / "/" / "/"+x (x: up to NS symbolic comma-free bytes);
-// mode 1: ack id symbolic (below 10^4 quick / 10^6 thorough: 1..4/6 digits) on EVENT and ACK, with and without namespace;
+// mode 1: ack id symbolic (below 10^4 quick / 10^5 thorough: 1..4/5 digits) on EVENT and ACK, with and without namespace;
 // mode 2: attachment count symbolic 0..999 on BINARY_EVENT / BINARY_ACK;
 // mode 3: ack id = one of 14 boundary constants up to 2^64-1 (every digit count and both sides of 2^32, 2^53, 2^63, 10^19).
 //
@@ -17,7 +17,7 @@ func verifH_C09_header_fields() {
 	idMax := uint64(10000)
 	if verifThorough() {
 		NS = 4
-		idMax = 1000000
+		idMax = 100000
 	}
 	typ := parser.PacketTypeEvent
 	nsp := "/"
